@@ -242,6 +242,12 @@ def main(argv):
         for g in range(ngen):
             src = progen.gen_program(vsim.Rng(seed, "c08-gen", g), size="small", force=("tokens",) if g % 2 == 0 else ())
             cands.append(("gen%03d.as" % g, src.encode("latin-1"), "generated"))
+        # ill-typed variants of generated programs: the diagnostics (lists of candidate meanings and
+        # types, their order and positions) are outputs too
+        for g in range(4 if tier == "quick" else 40):
+            rb = vsim.Rng(seed, "c08-broken", g)
+            src = progen.break_program(progen.gen_program(rb.fork("p"), size="tiny"), rb)
+            cands.append(("bad%03d.as" % g, src.encode("latin-1"), "generated"))
         # generated programs split over several local files (main.as includes partN.as)
         AUX = {}
         for g in range(3 if tier == "quick" else 20):
@@ -281,7 +287,7 @@ def main(argv):
             # validated per run: keep what the current tree compiles in the reference configuration
             # ... and what it compiles within modest resources: a reference run that ends at
             # the memory cap or takes tens of seconds would only measure my caps
-            if ref.timeout or ref.rc is None or worlds.fault_class(ref) or ref.wall > 20 or \
+            if ref.timeout or ref.rc is None or worlds.fault_class(ref) or (ref.cpu if ref.cpu is not None else ref.wall) > 20 or \
                b"Storage allocation error" in ref.out + ref.err or b"Exceeded time limit" in ref.out + ref.err:
                 dropped.append(w_[0])
                 continue
@@ -343,7 +349,7 @@ def main(argv):
         wrefs = vsim.pmap(lambda w_: run_compile(binfo, scratch, {w_[0]: w_[1]}, wopts, [w_[0]], {}, cpu=40), wide)
         nwide_kept = 0
         for (n, text), ref in zip(wide, wrefs):
-            if ref.timeout or ref.rc is None or worlds.fault_class(ref) or ref.wall > 8 or b"Storage allocation error" in ref.out + ref.err:
+            if ref.timeout or ref.rc is None or worlds.fault_class(ref) or (ref.cpu if ref.cpu is not None else ref.wall) > 8 or b"Storage allocation error" in ref.out + ref.err:
                 continue
             nwide_kept += 1
             progs.append({"name": n, "text": text, "origin": "corpus-wide", "opts": wopts, "ref": ref, "nalloc": 1})
@@ -360,7 +366,7 @@ def main(argv):
         lrefs = vsim.pmap(lambda w_: run_compile(binfo, scratch, {w_[0]: w_[1]}, wopts, [w_[0]], {}, cpu=60, pre=worlds.LIBALDOR_ARGS), lwide)
         nlib_kept = 0
         for (n, text), ref in zip(lwide, lrefs):
-            if ref.timeout or ref.rc is None or worlds.fault_class(ref) or ref.wall > 12 or b"Storage allocation error" in ref.out + ref.err:
+            if ref.timeout or ref.rc is None or worlds.fault_class(ref) or (ref.cpu if ref.cpu is not None else ref.wall) > 12 or b"Storage allocation error" in ref.out + ref.err:
                 continue
             nlib_kept += 1
             progs.append({"name": n, "text": text, "origin": "corpus-wide", "opts": wopts, "ref": ref, "nalloc": 1, "pre": worlds.LIBALDOR_ARGS})
